@@ -5,6 +5,7 @@ import (
 	"go/ast"
 	"go/token"
 	"go/types"
+	"golang.org/x/tools/go/types/typeutil"
 	"sort"
 	"strings"
 )
@@ -83,11 +84,9 @@ func ruleLegacyFold(c *Ctx) {
 	p := c.P
 	foundAny := false
 	for _, spec := range []struct{ fn, cfg string }{{"Client.Start", "ClientConfig"}, {"NewClient", "ClientConfig"}} {
-		// the constructor is looked at only when Start does not fold (the fold
-		// moved to where the other configuration defaults are applied)
-		if spec.fn == "NewClient" && foundAny {
-			continue
-		}
+		// both are looked at: the fold may live in Start, in the constructor
+		// (where the other configuration defaults are applied), or in both - every
+		// such store needs the guard
 		f := p.Fn(spec.fn)
 		if f == nil {
 			c.R.Undecided("R-NEG", spec.fn, "anchor", "function not found")
@@ -137,7 +136,7 @@ func ruleLegacyFold(c *Ctx) {
 		if found {
 			foundAny = true
 		}
-		if !found && spec.fn == "NewClient" {
+		if !foundAny && spec.fn == "NewClient" {
 			c.R.Undecided("R-NEG", "Client.Start", "legacy fold", "no store VersionedPlugins[v] = Plugins found")
 		}
 	}
@@ -320,6 +319,142 @@ func ruleTranslateDirections(c *Ctx) {
 		default:
 			c.R.Undecided("R-ID/translate", f.Name, construct, "no address translation call found")
 		}
+	}
+}
+
+// ruleTranslateIdentity: the runners that ship with the library (package
+// internal/cmdrunner) run the plugin in the host's own namespace, so their
+// address translations are the identity: every PluginToHost / HostToPlugin
+// method declared in that package returns its two parameters unchanged and a
+// nil error. (Start reports, and the broker dials, the translated address; a
+// built-in translation that rewrites it makes the client report an address
+// that is not the one on the handshake line.)
+func ruleTranslateIdentity(c *Ctx) {
+	p := c.P
+	n := 0
+	for _, f := range p.Funcs {
+		if f.Decl == nil || f.Decl.Recv == nil || f.Pkg.PkgPath != modPath+"/internal/cmdrunner" {
+			continue
+		}
+		nm := f.Decl.Name.Name
+		if nm != "PluginToHost" && nm != "HostToPlugin" {
+			continue
+		}
+		n++
+		info := f.Pkg.TypesInfo
+		var params []types.Object
+		for _, fd := range f.Type.Params.List {
+			for _, id := range fd.Names {
+				params = append(params, info.Defs[id])
+			}
+		}
+		ok := len(params) == 2
+		nRet := 0
+		walkNoLit(f.Body, func(x ast.Node) bool {
+			rs, isR := x.(*ast.ReturnStmt)
+			if !isR {
+				return true
+			}
+			nRet++
+			if len(rs.Results) != 3 || len(params) != 2 || identObj(info, rs.Results[0]) != params[0] || identObj(info, rs.Results[1]) != params[1] || !isNilIdent(info, rs.Results[2]) {
+				ok = false
+			}
+			return true
+		})
+		// the parameters are not re-bound either
+		ast.Inspect(f.Body, func(x ast.Node) bool {
+			if as, isAs := x.(*ast.AssignStmt); isAs {
+				for _, l := range as.Lhs {
+					for _, pv := range params {
+						if identObj(info, l) == pv {
+							ok = false
+						}
+					}
+				}
+			}
+			return true
+		})
+		construct := "built-in runner translation is the identity"
+		if ok && nRet > 0 {
+			c.R.Hold("R-ID/translate", p.Pos(f.Node()), f.Name, construct, "returns its network and address parameters unchanged", true)
+		} else {
+			c.R.Violate("R-ID/translate", p.Pos(f.Node()), f.Name, construct, "a runner of internal/cmdrunner rewrites the address it translates: the plugin runs in the host's namespace, so the address Start reports (and the broker dials) is then not the address the plugin announced - an abstract socket name or a path the plugin really listens on is replaced by one nothing listens on", nil)
+		}
+	}
+	if n < 2 {
+		c.R.Undecided("R-ID/translate", "", "instance-floor", fmt.Sprintf("only %d address translation methods found in internal/cmdrunner, 2 expected", n))
+	}
+}
+
+// ---------- R-CONN/main: only the protocol-client constructors connect to the plugin's main address ----------
+
+// ruleMainConnOwners: every connection to the plugin's main listener is a
+// protocol client's connection - the plugin treats each accepted connection as
+// its host (a net/rpc server attaches the process-wide stdout/stderr pipes to
+// it, and Client() caches exactly one client). So Client.address is dialled,
+// and Client.dialer is used, only inside newRPCClient / newGRPCClient (and
+// Client.dialer itself): a second connection made anywhere else (a health
+// probe, a re-dial helper) takes output chunks and control of the plugin away
+// from the client the host actually uses.
+func ruleMainConnOwners(c *Ctx) {
+	p := c.P
+	addrF := p.FieldObj(modPath, "Client", "address")
+	owners := map[string]bool{"newRPCClient": true, "newGRPCClient": true, "Client.dialer": true}
+	n, bad := 0, false
+	for _, f := range p.Funcs {
+		if !notTesting(p, f) {
+			continue
+		}
+		root := f
+		for root.Parent != nil {
+			root = root.Parent
+		}
+		info := f.Pkg.TypesInfo
+		usesAddr := func(e ast.Expr) bool {
+			found := false
+			ast.Inspect(e, func(x ast.Node) bool {
+				if se, ok := x.(*ast.SelectorExpr); ok && SelField(info, se) == addrF && addrF != nil {
+					found = true
+				}
+				return true
+			})
+			return found
+		}
+		walkNoLit(f.Body, func(x ast.Node) bool {
+			switch y := x.(type) {
+			case *ast.SelectorExpr:
+				if fn, ok := info.Uses[y.Sel].(*types.Func); ok && p.FnOf(fn) != nil && p.FnOf(fn).Name == "Client.dialer" {
+					n++
+					if !owners[root.Name] {
+						bad = true
+						c.R.Violate("R-CONN/main", p.Pos(y), f.Name, "use of Client.dialer", "the plugin's main address is connected to outside the protocol-client constructors: the plugin serves every accepted connection as its host (net/rpc attaches the stdout/stderr pipes to it), so this second connection takes output and control away from the client Client() returns", nil)
+					}
+				}
+			case *ast.CallExpr:
+				nm := p.CalleeName(f, y)
+				if nm == "net.Dial" || nm == "net.DialTimeout" || nm == "net.Dialer.Dial" || nm == "net.Dialer.DialContext" || nm == "netAddrDialer" || nm == "crypto/tls.Dial" || nm == "crypto/tls.DialWithDialer" {
+					on := false
+					for _, a := range y.Args {
+						if usesAddr(a) {
+							on = true
+						}
+					}
+					if on {
+						n++
+						if !owners[root.Name] {
+							bad = true
+							c.R.Violate("R-CONN/main", p.Pos(y), f.Name, "dial of Client.address", "the plugin's main address is connected to outside the protocol-client constructors: the plugin serves every accepted connection as its host (net/rpc attaches the stdout/stderr pipes to it), so this second connection takes output and control away from the client Client() returns", nil)
+						}
+					}
+				}
+			}
+			return true
+		})
+	}
+	if n < 2 {
+		c.R.Undecided("R-CONN/main", "", "instance-floor", fmt.Sprintf("only %d connection sites to Client.address found, 3 expected (newRPCClient, Client.dialer, newGRPCClient's use of it)", n))
+	} else if !bad {
+		c.R.Hold("R-CONN/main", "-", "", "connections to the plugin's main address", fmt.Sprintf("%d sites, all inside newRPCClient, newGRPCClient or Client.dialer", n), true)
 	}
 }
 
@@ -685,13 +820,61 @@ func ruleDialOptions(c *Ctx) {
 		}
 	}
 	have := map[string]int64{}
-	for _, call := range f.Calls() {
-		nm := p.CalleeName(f, call)
+	note := func(tinfo *types.Info, call *ast.CallExpr) {
+		nm := ""
+		if fn := typeutil.Callee(tinfo, call); fn != nil {
+			nm = objFullName(fn)
+		}
 		if nm == "google.golang.org/grpc.MaxCallRecvMsgSize" || nm == "google.golang.org/grpc.MaxCallSendMsgSize" {
-			k, _ := constInt(info, call.Args[0])
+			k, _ := constInt(tinfo, call.Args[0])
 			have[strings.TrimPrefix(nm, "google.golang.org/")] = k
 		}
 	}
+	for _, call := range f.Calls() {
+		note(info, call)
+	}
+	// options kept in a package-level slice that is never written and is spread
+	// or extended in this function count with their initialiser
+	ast.Inspect(f.Body, func(x ast.Node) bool {
+		id, ok := x.(*ast.Ident)
+		if !ok {
+			return true
+		}
+		v, ok := info.Uses[id].(*types.Var)
+		if !ok || v.IsField() || v.Pkg() == nil || v.Parent() != v.Pkg().Scope() || !strings.HasPrefix(v.Pkg().Path(), modPath) {
+			return true
+		}
+		if _, isSlice := v.Type().Underlying().(*types.Slice); !isSlice || !p.pkgVarNeverWritten(v) {
+			return true
+		}
+		for _, pkg := range p.Pkgs {
+			for _, file := range pkg.Syntax {
+				for _, d := range file.Decls {
+					gd, isGen := d.(*ast.GenDecl)
+					if !isGen {
+						continue
+					}
+					for _, sp := range gd.Specs {
+						vs, isVS := sp.(*ast.ValueSpec)
+						if !isVS {
+							continue
+						}
+						for i, nm := range vs.Names {
+							if pkg.TypesInfo.Defs[nm] == types.Object(v) && i < len(vs.Values) {
+								ast.Inspect(vs.Values[i], func(y ast.Node) bool {
+									if call, isCall := y.(*ast.CallExpr); isCall {
+										note(pkg.TypesInfo, call)
+									}
+									return true
+								})
+							}
+						}
+					}
+				}
+			}
+		}
+		return true
+	})
 	var miss []string
 	for _, want := range []string{"grpc.MaxCallRecvMsgSize", "grpc.MaxCallSendMsgSize"} {
 		if have[want] != 1<<31-1 {
